@@ -15,8 +15,10 @@ import (
 	"math/rand"
 	"net/mail"
 	"os"
+	"os/signal"
 	"path/filepath"
 	"sync"
+	"syscall"
 	"time"
 
 	"github.com/inbucket/inbucket/v3/pkg/config"
@@ -41,6 +43,9 @@ type storeOp struct {
 	// second, plus-addressed recipient of the same mailbox), and which copy (1-based, 0 = none) the store refuses
 	Also   []int `json:"also"`
 	FailAt int   `json:"fail_at"`
+	// op "addfault" (file store): a delivery during which no file of this process may grow beyond Limit bytes (RLIMIT_FSIZE,
+	// SIGXFSZ ignored): the write of the message file fails part-way, as on a full disk
+	Limit int `json:"limit"`
 }
 
 // recStore lets the driver observe a multi-recipient delivery copy by copy: the manager calls the store once per copy (and,
@@ -370,6 +375,27 @@ func runStoreBehaviourHooked(w *tr.Writer, b storeBehaviour, seed int64, scratch
 			if op.Meta == 0 {
 				oldDates = append(oldDates, pm.Meta.Date)
 			}
+			if err == nil {
+				issued[op.Mb] = append(issued[op.Mb], id)
+			}
+		case "addfault":
+			meta := mkMeta(rng, op.Meta, name)
+			body := mkBody(rng, op.Size)
+			d := &message.Delivery{Meta: meta, Reader: bytes.NewReader(body)}
+			w.Flush() // nothing of the trace is written while the limit is in force
+			var old syscall.Rlimit
+			_ = syscall.Getrlimit(syscall.RLIMIT_FSIZE, &old)
+			signal.Ignore(syscall.SIGXFSZ)
+			_ = syscall.Setrlimit(syscall.RLIMIT_FSIZE, &syscall.Rlimit{Cur: uint64(op.Limit), Max: old.Max})
+			id, err := st.AddMessage(d)
+			_ = syscall.Setrlimit(syscall.RLIMIT_FSIZE, &old)
+			ev["r"], ev["id"], ev["size"], ev["limit"] = errClass(err), id, len(body), op.Limit
+			if err != nil {
+				ev["r"] = "err"
+			}
+			written := tr.ProjectMsg(&message.Delivery{Meta: meta, Reader: bytes.NewReader(body)})
+			written.Meta.Hash = tr.HashBytes(body)
+			ev["meta"] = written.Meta
 			if err == nil {
 				issued[op.Mb] = append(issued[op.Mb], id)
 			}
